@@ -201,9 +201,97 @@ def choose_branch(node, d, tuples=True, loose=False):
     raise NoBranch("no conforming branch")
 
 
-def default_datum(ftype, default):
-    """A field's JSON default taken as a Python datum."""
+def default_datum(ftype, default, depth=0):
+    """A field's JSON default as the Python datum the specification means:
+    bytes and fixed defaults are JSON strings of code points 0-255, i.e. the
+    ISO-8859-1 bytes; everything else maps structurally."""
+    node = deref(ftype)
+    k = node.kind
+    if depth > 30:
+        return default
+    if k in ("bytes", "fixed") and isinstance(default, str):
+        try:
+            return default.encode("iso-8859-1")
+        except UnicodeEncodeError:
+            return default
+    if k == "array" and isinstance(default, list):
+        return [default_datum(node.items, x, depth + 1) for x in default]
+    if k == "map" and isinstance(default, dict):
+        return {key: default_datum(node.values, x, depth + 1) for key, x in default.items()}
+    if k == "record" and isinstance(default, dict):
+        fields = {f.name: f for f in node.fields}
+        return {key: (default_datum(fields[key].type, x, depth + 1) if key in fields else x) for key, x in default.items()}
+    if k == "union" and isinstance(default, str):
+        # the first branch a JSON string default can belong to
+        for b in node.branches:
+            bd = deref(b)
+            if bd.kind == "string" or (bd.kind == "enum" and default in bd.symbols):
+                return default
+            if bd.kind == "bytes" or (bd.kind == "fixed" and len(default) == bd.size):
+                try:
+                    return default.encode("iso-8859-1")
+                except UnicodeEncodeError:
+                    return default
+        return default
+    if k == "union" and isinstance(default, (list, dict)) and node.branches:
+        return default_datum(node.branches[0], default, depth + 1)
     return default
+
+
+def fill_defaults(node, d, tuples=True, depth=0):
+    """The datum with every omitted defaulted field supplied explicitly (the
+    default taken as the specification means it) - the neutralising edit of the
+    'bytes default used verbatim' finding."""
+    node = deref(node)
+    k = node.kind
+    if depth > 40:
+        return d
+    if k == "record" and isinstance(d, Mapping):
+        out = {}
+        for key in d:
+            out[key] = d[key]
+        for f in node.fields:
+            if f.name in d:
+                out[f.name] = fill_defaults(f.type, d[f.name], tuples, depth + 1)
+            elif f.has_default:
+                out[f.name] = default_datum(f.type, f.default)
+        return out
+    if k == "array" and _seq(d):
+        return [fill_defaults(node.items, x, tuples, depth + 1) for x in d]
+    if k == "map" and isinstance(d, Mapping):
+        return {key: fill_defaults(node.values, x, tuples, depth + 1) for key, x in d.items()}
+    if k == "union":
+        try:
+            i, inner = choose_branch(node, d, tuples, True)
+        except NoBranch:
+            return d
+        filled = fill_defaults(node.branches[i], inner, tuples, depth + 1)
+        if tuples and type(d) is tuple and len(d) == 2:
+            return (d[0], filled)
+        return filled
+    return d
+
+
+def has_bytes_default(node, seen=None):
+    """Does some field default (transitively) contain a string meant for a bytes/fixed type?"""
+    seen = seen if seen is not None else set()
+    node_d = deref(node)
+    if node_d.kind == "record":
+        if node_d.name in seen:
+            return False
+        seen.add(node_d.name)
+        for f in node_d.fields:
+            if f.has_default and default_datum(f.type, f.default) != f.default:
+                return True
+            if has_bytes_default(f.type, seen):
+                return True
+    elif node_d.kind == "array":
+        return has_bytes_default(node_d.items, seen)
+    elif node_d.kind == "map":
+        return has_bytes_default(node_d.values, seen)
+    elif node_d.kind == "union":
+        return any(has_bytes_default(b, seen) for b in node_d.branches)
+    return False
 
 
 def from_datum(node, d, tuples=True, loose=False):
